@@ -40,8 +40,28 @@ def run_p(seed, tier, replay=None):
     }
 
 
+def run_threads(seed, tier):
+    """the limits the slots stay below: test-threads / a group's max-threads as computed from the command line and from TOML,
+    incl. negative values (relative to the CPU count) far below zero — never below 1 (a limit of 0 means "unbounded" to the
+    scheduler)"""
+    rp = common.run_streams([("p_prio", [seed, 5, vlib.BUILD + "/prio-tmp"])])
+    items = [([b, args, idx], req, impl) for (b, args, idx, req, impl) in rp.cases if req.startswith("threads ")]
+    mism, _ = common.compare(items, None)
+    violations = []
+    for m in mism:
+        f = m["req"].split(" ")
+        violations.append({"what": f"thread count for the configured value {f[1]} on {f[2]} CPUs: nextest computes {m['impl']}, documented {m['model']} (a positive count is itself, a negative one counts back from the number of CPUs but never below 1, 0 is rejected)",
+                           "payload": {"stream": m["origin"][:2], "line_index": m["origin"][2], "request": m["req"], "impl": m["impl"], "spec": m["model"]}, "kind": "threads"})
+    return {"evaluations": len(items), "distinct_nontrivial": len(items), "traces": len(items), "violations": violations, "broken": rp.broken,
+            "rule": "thread counts: 11 configured values (positive, negative within and beyond the CPU count, 0) through TestThreads::from_str and through TOML (profile test-threads and a group's max-threads) against Model/Priority.threadCount"}
+
+
 def run(seed, tier, replay=None):
-    r = mix.merge(run_p(seed, tier, replay), mix.check([mix.mon_concurrency, mix.mon_least_free], seed, tier))
+    a = run_p(seed, tier, replay); t = run_threads(seed, tier)
+    for k in ("evaluations", "distinct_nontrivial", "traces"): a[k] = a.get(k, 0) + t[k]
+    a["rule"] += " || " + t["rule"]
+    for k in ("violations", "broken"): a[k] = a.get(k, []) + t[k]
+    r = mix.merge(a, mix.check([mix.mon_concurrency, mix.mon_least_free], seed, tier))
     # "slots are passed in NEXTEST_TEST_GLOBAL_SLOT / NEXTEST_TEST_GROUP / NEXTEST_TEST_GROUP_SLOT": also when setup scripts write
     # look-alike keys (family scr; only the slot-variable monitor counts here)
     from props import scr
